@@ -417,12 +417,21 @@ class VersionConverter(object):
         :param elem_map: lxml path to occurrence maps of named Sections or Properties.
         :param name: lxml element containing the name text of a Section or Property.
         """
-        named_path = "%s:%s" % (tree.getpath(name.getparent().getparent()), name.text)
+        parent_path = tree.getpath(name.getparent().getparent())
+        named_path = "%s:%s" % (parent_path, name.text)
         if named_path not in elem_map:
             elem_map[named_path] = 1
         else:
-            elem_map[named_path] += 1
-            name.text += "-" + str(elem_map[named_path])
+            # Make sure the new name is not used by another sibling,
+            # e.g. when 'name-2' already exists next to two entities called 'name'.
+            while True:
+                elem_map[named_path] += 1
+                new_name = "%s-%s" % (name.text, elem_map[named_path])
+                new_path = "%s:%s" % (parent_path, new_name)
+                if new_path not in elem_map:
+                    break
+            elem_map[new_path] = 1
+            name.text = new_name
 
     def _check_add_ids(self, tree):
         """
